@@ -982,7 +982,7 @@ func (env *Env) evalCall(x *ast.CallExpr) Val {
 				return Val{T: boolT, C: []string{"true"}}
 			}
 			h := e.heap("G!released", "Bool", false)
-			return Val{T: boolT, C: []string{or(eq(v.C[0], "0"), not(sx("select", e.heapTerm(env.st, h), v.C[0])))}}
+			return Val{T: boolT, C: []string{or(sx("<=", v.C[0], "0"), not(sx("select", e.heapTerm(env.st, h), v.C[0])))}}
 		case "held":
 			v := env.eval(x.Args[0])
 			h := e.heap("G!held", "Bool", false)
